@@ -2145,6 +2145,16 @@ def p_each( ctx ):
                      'the read raises inside the handler: the whole Multiple Service Packet is answered 0x08 where that member alone should be - the replies of its neighbours, whose writes were carried out, are lost' )
         else:
             res.ok( src, h_, 'the handler answering a failing member alone reads only fields it has stored, or through .get / .pop' )
+    # behind the loop the bundle itself is answered with status 0x00 whatever became of its members: each member carries its own status, and
+    # this code base's client ( enip_replies ) gives up on the whole bundle - every member's reply - for any other bundle status
+    blk_ = src.parent.get( f )
+    sibs_ = next(( getattr( blk_, fld_ ) for fld_ in ( 'body', 'orelse', 'finalbody' ) if isinstance( getattr( blk_, fld_, None ), list ) and f in getattr( blk_, fld_ )), [] )
+    after_ = [ a_ for a_ in sibs_[sibs_.index( f ) + 1:] if isinstance( a_, ast.Assign ) and any( dotted( t ) == 'data.status' for t in a_.targets ) ] if f in sibs_ else []
+    if after_ and all( try_fold( a_.value, {}, default='?' ) == 0 for a_ in after_ ):
+        res.ok( src, after_[0], 'the bundle is answered with status 0x00, a constant: a failing member shows in its own reply only' )
+    else:
+        res.bad( src, after_[0] if after_ else f, 'the status of the bundle behind the member loop is `%s`' % ( norm_text( after_[0].value ) if after_ else 'not stored' ),
+                 'a bundle status that depends on its members ( 0x1E when one fails ) makes the client drop the replies of ALL members ( MSVCStatusError ), where the same requests issued one by one yield each its own result' )
     # the loop body never touches the bundle's own status
     st = [ s for s in ast.walk( f ) if isinstance( s, ast.Assign ) and any( dotted( t ) == 'data.status' for t in s.targets ) ]
     if st:
@@ -2611,8 +2621,13 @@ def b_route( ctx ):
         cur = a
         if isinstance( a, ast.FunctionDef ):
             break
+    # comparison helpers defined inside the handler ( def same_hops( ours, theirs ): ... ) are evaluated where the test calls them
+    encl = [ a for a in src.ancestors( node ) if isinstance( a, ast.FunctionDef ) ]
+    nested_ = [ f_ for f_ in ast.walk( encl[0] ) if isinstance( f_, ast.FunctionDef ) and f_ is not encl[0] ] if encl else []
+    from .fold import helper_calls as _helpers
+    helpers_ = _helpers( ast.Module( body=nested_, type_ignores=[] ), ignore_calls=( 'log', ), base_env={ 'len': len, 'all': all, 'any': any, 'isinstance': isinstance, 'dict': dict, 'list': list } )
     def accept( cfgv, reqv ):
-        env = { RP: reqv, 'self.route_path': cfgv }
+        env = dict( helpers_ ); env.update( { RP: reqv, 'self.route_path': cfgv } )
         for gtest, in_body in guards:
             g = bool( fold( gtest, env ))
             if g != in_body:
